@@ -68,6 +68,15 @@ theorem and_clears_bit1 (f m : Nat) (hm : m.testBit 1 = false) : (f &&& m) &&& 2
   · subst hi; simp [hm]
   · simp [hi]
 
+/-- AND-ing with a word whose bit 1 is set keeps bit 1 -/
+theorem and_keeps_bit1 (f m : Nat) (hm : m.testBit 1 = true) : (f &&& m) &&& 2 = f &&& 2 := by
+  apply Nat.eq_of_testBit_eq
+  intro i
+  simp only [Nat.testBit_and, testBit_two]
+  by_cases hi : i = 1
+  · subst hi; simp [hm]
+  · simp [hi]
+
 theorem inFlash_iff (a : AcctV) : inFlash a = (a.flags &&& 2 == 2) := by
   unfold inFlash hasFlag; rw [FLASH_two]
 
@@ -137,12 +146,12 @@ theorem transferIx_noFlash {g : GroupV} {a o n : AcctV} {signer newKey newAuth :
 
 /-! ### no whole instruction raises the flag -/
 
-/-- every account flagged afterwards was flagged before (same place in the world) -/
-def NoNewFlash (w w' : WState) : Prop :=
-  ∀ (i : Nat) (x : AcctV), w'.accts[i]? = some x → inFlash x = true → ∃ y, w.accts[i]? = some y ∧ inFlash y = true
+/-- every account marked (by a predicate on accounts) afterwards was marked before, at the same place in the world -/
+def NoNewP (P : AcctV → Bool) (w w' : WState) : Prop :=
+  ∀ (i : Nat) (x : AcctV), w'.accts[i]? = some x → P x = true → ∃ y, w.accts[i]? = some y ∧ P y = true
 
-theorem set_noNew {l : List AcctV} {ai : Nat} {a a' : AcctV} (ha : l[ai]? = some a) (hf : inFlash a' = true → inFlash a = true) :
-    ∀ (i : Nat) (x : AcctV), (l.set ai a')[i]? = some x → inFlash x = true → ∃ y, l[i]? = some y ∧ inFlash y = true := by
+theorem set_noNewP {P : AcctV → Bool} {l : List AcctV} {ai : Nat} {a a' : AcctV} (ha : l[ai]? = some a) (hf : P a' = true → P a = true) :
+    ∀ (i : Nat) (x : AcctV), (l.set ai a')[i]? = some x → P x = true → ∃ y, l[i]? = some y ∧ P y = true := by
   intro i x hx hfx
   rw [List.getElem?_set] at hx
   split at hx
@@ -153,69 +162,75 @@ theorem set_noNew {l : List AcctV} {ai : Nat} {a a' : AcctV} (ha : l[ai]? = some
     · cases hx
   · exact ⟨x, hx, hfx⟩
 
-theorem noNew_refl (w : WState) : NoNewFlash w w := fun _ x hx hf => ⟨x, hx, hf⟩
+theorem noNewP_refl (P : AcctV → Bool) (w : WState) : NoNewP P w w := fun _ x hx hf => ⟨x, hx, hf⟩
 
-theorem step_noNew (w : WState) (op : WOp) : NoNewFlash w (w.step op) := by
+/-- no whole instruction marks an account, for any mark that (1) is read off the flag word, (2) is not raised by disabling the
+    account, (3) is absent from both accounts of an accepted transfer -/
+theorem step_noNewP (P : AcctV → Bool) (hslots : ∀ (a : AcctV) (slots : List Slot), P { a with slots := slots } = P a)
+    (hdis : ∀ (a : AcctV) (slots : List Slot), P { a with slots := slots, flags := a.flags ||| ACCOUNT_DISABLED.toNat } = true → P a = true)
+    (htr : ∀ (g : GroupV) (a o n : AcctV) (signer newKey newAuth : Nat) (ok : Bool),
+      transferIx g a signer newKey newAuth ok = .ok (o, n) → P o = false ∧ P n = false)
+    (w : WState) (op : WOp) : NoNewP P w (w.step op) := by
   have commitCase : ∀ (ai bi : Nat) (a : AcctV) (b : WBank) (slots : List Slot) (books : Bank) (opState : Int) (window : Admin.Window) (dA dL : Int),
-      w.accts[ai]? = some a → NoNewFlash w (w.commit ai bi a b slots a.flags books opState window dA dL) := by
+      w.accts[ai]? = some a → NoNewP P w (w.commit ai bi a b slots a.flags books opState window dA dL) := by
     intro ai bi a b slots books opState window dA dL ha
-    exact set_noNew ha (fun h => h)
+    exact set_noNewP ha (fun h => Eq.trans (hslots a slots).symm h)
   cases op with
-  | tick dt => exact noNew_refl w
+  | tick dt => exact noNewP_refl P w
   | accrue bi =>
     simp only [WState.step]
     split
     · split
-      · exact noNew_refl w
-      · exact noNew_refl w
-    · exact noNew_refl w
+      · exact noNewP_refl P w
+      · exact noNewP_refl P w
+    · exact noNewP_refl P w
   | collect bi ok vault =>
     simp only [WState.step]
     split
     · split
-      · exact noNew_refl w
-      · exact noNew_refl w
-    · exact noNew_refl w
+      · exact noNewP_refl P w
+      · exact noNewP_refl P w
+    · exact noNewP_refl P w
   | deposit ai bi signer amount upTo =>
     simp only [WState.step]
     split
     · rename_i a b ha hb
       split
       · exact commitCase _ _ _ _ _ _ _ _ _ _ ha
-      · exact noNew_refl w
-    · exact noNew_refl w
+      · exact noNewP_refl P w
+    · exact noNewP_refl P w
   | borrow ai bi signer amount =>
     simp only [WState.step]
     split
     · rename_i a b ha hb
       split
       · exact commitCase _ _ _ _ _ _ _ _ _ _ ha
-      · exact noNew_refl w
-    · exact noNew_refl w
+      · exact noNewP_refl P w
+    · exact noNewP_refl P w
   | withdraw ai bi signer amount all vault =>
     simp only [WState.step]
     split
     · rename_i a b ha hb
       split
       · exact commitCase _ _ _ _ _ _ _ _ _ _ ha
-      · exact noNew_refl w
-    · exact noNew_refl w
+      · exact noNewP_refl P w
+    · exact noNewP_refl P w
   | repay ai bi signer amount all =>
     simp only [WState.step]
     split
     · rename_i a b ha hb
       split
       · exact commitCase _ _ _ _ _ _ _ _ _ _ ha
-      · exact noNew_refl w
-    · exact noNew_refl w
+      · exact noNewP_refl P w
+    · exact noNewP_refl P w
   | close ai bi signer =>
     simp only [WState.step]
     split
     · rename_i a b ha hb
       split
       · exact commitCase _ _ _ _ _ _ _ _ _ _ ha
-      · exact noNew_refl w
-    · exact noNew_refl w
+      · exact noNewP_refl P w
+    · exact noNewP_refl P w
   | bankruptcy ai bi signer available =>
     simp only [WState.step]
     split
@@ -238,17 +253,16 @@ theorem step_noNew (w : WState) (op : WOp) : NoNewFlash w (w.step op) := by
             subst ho
             rfl
         simp only [WState.commit]
-        apply set_noNew ha
+        apply set_noNewP ha
         intro h
         rw [hfl] at h
-        rw [← inFlash_disable a o.slots]
-        exact h
-      · exact noNew_refl w
-    · exact noNew_refl w
+        exact hdis a o.slots h
+      · exact noNewP_refl P w
+    · exact noNewP_refl P w
   | liquidate qi ei abi lbi signer amount =>
     simp only [WState.step]
     split
-    · exact noNew_refl w
+    · exact noNewP_refl P w
     · split
       · rename_i lq le ab lb hq he hab hlb
         split
@@ -260,34 +274,52 @@ theorem step_noNew (w : WState) (op : WOp) : NoNewFlash w (w.step op) := by
           · rename_i hi
             subst hi
             split at hx
-            · injection hx with hx; subst hx; exact ⟨le, he, hfx⟩
+            · injection hx with hx; subst hx; exact ⟨le, he, Eq.trans (hslots le o.leSlots).symm hfx⟩
             · cases hx
-          · exact set_noNew (a' := { lq with slots := o.lqSlots }) hq (fun h => h) i x hx hfx
-        · exact noNew_refl w
-      · exact noNew_refl w
+          · exact set_noNewP (a' := { lq with slots := o.lqSlots }) hq (fun h => Eq.trans (hslots lq o.lqSlots).symm h) i x hx hfx
+        · exact noNewP_refl P w
+      · exact noNewP_refl P w
   | transfer ai signer newKey newAuth ok =>
     simp only [WState.step]
     split
-    · exact noNew_refl w
+    · exact noNewP_refl P w
     · split
       · rename_i a ha
         split
         · rename_i o n ho
-          obtain ⟨f1, f2⟩ := transferIx_noFlash ho
+          obtain ⟨f1, f2⟩ := htr _ _ _ _ _ _ _ _ ho
           intro i x hx hfx
           simp only at hx
           have hlen : (w.accts.set ai o).length = w.accts.length := List.length_set
           by_cases hi : i < w.accts.length
           · rw [List.getElem?_append_left (by omega)] at hx
-            exact set_noNew ha (fun h => by rw [f1] at h; cases h) i x hx hfx
+            exact set_noNewP ha (fun h => by rw [f1] at h; cases h) i x hx hfx
           · rw [List.getElem?_append_right (by omega)] at hx
             have : x = n := by
               cases hk : i - (w.accts.set ai o).length with
               | zero => rw [hk] at hx; simpa using hx.symm
               | succ k => rw [hk] at hx; simp at hx
             rw [this, f2] at hfx; cases hfx
-        · exact noNew_refl w
-      · exact noNew_refl w
+        · exact noNewP_refl P w
+      · exact noNewP_refl P w
+
+
+/-- every account flagged in-flash-loan afterwards was flagged before (same place in the world) -/
+def NoNewFlash (w w' : WState) : Prop := NoNewP inFlash w w'
+
+theorem set_noNew {l : List AcctV} {ai : Nat} {a a' : AcctV} (ha : l[ai]? = some a) (hf : inFlash a' = true → inFlash a = true) :
+    ∀ (i : Nat) (x : AcctV), (l.set ai a')[i]? = some x → inFlash x = true → ∃ y, l[i]? = some y ∧ inFlash y = true :=
+  set_noNewP ha hf
+
+theorem step_noNew (w : WState) (op : WOp) : NoNewFlash w (w.step op) :=
+  step_noNewP inFlash (fun a slots => rfl)
+    (fun a slots hx => by
+      rw [inFlash_iff] at hx ⊢
+      have : ACCOUNT_DISABLED.toNat = 1 := by decide
+      simp only [this] at hx
+      rw [or_keeps_bit1 a.flags 1 (by decide)] at hx
+      exact hx)
+    (fun _ _ _ _ _ _ _ _ h => transferIx_noFlash h) w op
 
 /-! ### the two flash-loan instructions -/
 
@@ -381,6 +413,8 @@ theorem stepIn_pending {tx : List TOp} {i : Nat} {t : TOp} {w w' : WState} (ht :
               exact ⟨endIdx, s, by omega, hte⟩
             | ix op => simp [isEndFlashOf] at hend
             | startFlash _ _ _ => simp [isEndFlashOf] at hend
+            | startLiq _ _ _ => simp [isEndFlashOf] at hend
+            | endLiq _ _ _ _ _ => simp [isEndFlashOf] at hend
         · simp only [hki, if_false] at hk
           obtain ⟨j, s, hij, hj⟩ := hp k a' hk hfl
           refine ⟨j, s, ?_, hj⟩
@@ -430,6 +464,73 @@ theorem stepIn_pending {tx : List TOp} {i : Nat} {t : TOp} {w w' : WState} (ht :
       · cases h
     · cases h
 
+  | startLiq ai receiver recordOk =>
+    simp only [WState.stepIn] at h
+    split at h
+    · rename_i a ha
+      split at h
+      · rename_i o ho
+        injection h with h; subst h
+        have hfl : o.flags = a.flags ||| ACCOUNT_IN_RECEIVERSHIP.toNat := by
+          unfold startLiquidation at ho
+          obtain ⟨_, _, ho⟩ := Res.bind_ok ho
+          obtain ⟨_, _, ho⟩ := Res.bind_ok ho
+          obtain ⟨_, _, ho⟩ := Res.bind_ok ho
+          obtain ⟨_, _, ho⟩ := Res.bind_ok ho
+          injection ho with ho
+          subst ho
+          rfl
+        intro k a' hk hfl'
+        obtain ⟨y, hy, hfy⟩ := set_noNew (a' := { a with flags := o.flags, recReceiver := o.receiver, recCache := o.cache }) ha
+          (by
+            intro hx
+            rw [inFlash_iff] at hx ⊢
+            simp only [hfl] at hx
+            have e : ACCOUNT_IN_RECEIVERSHIP.toNat = 16 := by decide
+            rw [e, or_keeps_bit1 a.flags 16 (by decide)] at hx
+            exact hx) k a' hk hfl'
+        obtain ⟨j, s, hij, hj⟩ := hp k y hy hfy
+        refine ⟨j, s, ?_, hj⟩
+        rcases Nat.lt_or_ge i j with h1 | h1
+        · omega
+        · have : j = i := by omega
+          subst this; rw [ht] at hj; cases hj
+      · cases h
+    · cases h
+  | endLiq ai signer recordOk walletOk feeMax =>
+    simp only [WState.stepIn] at h
+    split at h
+    · rename_i a ha
+      split at h
+      · rename_i o ho
+        injection h with h; subst h
+        have hfl : o.flags = a.flags &&& (Nat.xor ACCOUNT_IN_RECEIVERSHIP.toNat (2 ^ 64 - 1)) := by
+          unfold endLiquidation at ho
+          obtain ⟨_, _, ho⟩ := Res.bind_ok ho
+          obtain ⟨_, _, ho⟩ := Res.bind_ok ho
+          obtain ⟨_, _, ho⟩ := Res.bind_ok ho
+          obtain ⟨⟨sz, rp⟩, _, ho⟩ := Res.bind_ok ho
+          injection ho with ho
+          subst ho
+          rfl
+        intro k a' hk hfl'
+        obtain ⟨y, hy, hfy⟩ := set_noNew (a' := { a with flags := o.flags, recReceiver := 0 }) ha
+          (by
+            intro hx
+            rw [inFlash_iff] at hx ⊢
+            simp only [hfl] at hx
+            have e : ACCOUNT_IN_RECEIVERSHIP.toNat = 16 := by decide
+            rw [e, and_keeps_bit1 a.flags (Nat.xor 16 (2 ^ 64 - 1)) (by decide)] at hx
+            exact hx) k a' hk hfl'
+        obtain ⟨j, s, hij, hj⟩ := hp k y hy hfy
+        refine ⟨j, s, ?_, hj⟩
+        rcases Nat.lt_or_ge i j with h1 | h1
+        · omega
+        · have : j = i := by omega
+          subst this; rw [ht] at hj; cases hj
+      · cases h
+    · cases h
+
 theorem drop_cons_facts {tx rest : List TOp} {op : TOp} {i : Nat} (h : tx.drop i = op :: rest) :
     tx[i]? = some op ∧ tx.drop (i + 1) = rest := by
   constructor
@@ -438,9 +539,7 @@ theorem drop_cons_facts {tx rest : List TOp} {op : TOp} {i : Nat} (h : tx.drop i
     simpa using this
   · have : (tx.drop i).drop 1 = rest := by rw [h]; rfl
     rw [List.drop_drop] at this
-    first
-      | exact this
-      | (rw [Nat.add_comm] at this; exact this)
+    exact this
 
 theorem runFrom_pending (tx : List TOp) : ∀ (rest : List TOp) (i : Nat) (w w' : WState), tx.drop i = rest →
     WState.runFrom tx i rest w = some w' → Pending tx i w → Pending tx tx.length w' := by
@@ -665,6 +764,21 @@ theorem setFlags_inv {w : WState} {ai : Nat} {a : AcctV} {f : Nat} (hi : WInv w)
     simp only
     omega
 
+theorem setAcct_inv {w : WState} {ai : Nat} {a a' : AcctV} (hi : WInv w) (ha : w.accts[ai]? = some a) (hs : a'.slots = a.slots) :
+    WInv { w with accts := w.accts.set ai a' } := by
+  obtain ⟨hk, hA, hL⟩ := hi
+  refine ⟨hk, ?_, ?_⟩
+  · intro j b hb
+    simp only
+    rw [sum_map_set (fun x => posA b.v.key x.slots) w.accts ai a _ ha, hs]
+    have := hA j b hb
+    omega
+  · intro j b hb
+    simp only
+    rw [sum_map_set (fun x => posL b.v.key x.slots) w.accts ai a _ ha, hs]
+    have := hL j b hb
+    omega
+
 theorem stepIn_inv {tx : List TOp} {i : Nat} {t : TOp} {w w' : WState} (h : w.stepIn tx i t = some w') (hi : WInv w) : WInv w' := by
   cases t with
   | ix op =>
@@ -684,6 +798,22 @@ theorem stepIn_inv {tx : List TOp} {i : Nat} {t : TOp} {w w' : WState} (h : w.st
     · rename_i a ha
       split at h
       · injection h with h; subst h; exact setFlags_inv hi ha
+      · cases h
+    · cases h
+  | startLiq ai receiver recordOk =>
+    simp only [WState.stepIn] at h
+    split at h
+    · rename_i a ha
+      split at h
+      · injection h with h; subst h; exact setAcct_inv hi ha rfl
+      · cases h
+    · cases h
+  | endLiq ai signer recordOk walletOk feeMax =>
+    simp only [WState.stepIn] at h
+    split at h
+    · rename_i a ha
+      split at h
+      · injection h with h; subst h; exact setAcct_inv hi ha rfl
       · cases h
     · cases h
 
